@@ -237,7 +237,22 @@ def gen_path(r, G, depth, top):
     else:
         lead = None if k < 0.7 else "/" if k < 0.85 else "//"
     steps, seps = [], []
-    if r.random() < 0.6:
+    k = r.random()
+    if k < 0.14:
+        # search queries: a descendant step with a wildcard derived from the names (matches nest below each other)
+        nm = r.choice(G["names"][1:])
+        pat = r.choice([nm[:1] + "*", nm[:2] + "*", "*" + nm[-1:], "*" + nm[-3:], nm.split("-")[0] + "*", "*", nm])
+        if r.random() < 0.5:
+            steps.append(gen_step(r, G, 0))
+            seps.append(r.choice(["//", "/"]))
+        ax = None if (seps and seps[-1] == "//") or (not seps and lead == "//") else r.choice(list(DESC_AXES))
+        st = gen_step(r, G, depth, pat, ax)
+        steps.append(st)
+        if r.random() < 0.3:
+            seps.append("/")
+            steps.append(gen_step(r, G, 0))
+        return {"lead": lead, "steps": steps, "seps": seps}
+    if k < 0.65:
         # guided along an existing path, from the root for top level / absolute paths, else from anywhere
         node = 0 if (top or lead) else r.randrange(G["n"])
         first = True
@@ -671,8 +686,9 @@ def impl_query(ps, text, kind, query_all):
 
 def impl_query1(ps, text, kind, query_all, limit):
     from bob.errors import BobError
-    old = signal.signal(signal.SIGALRM, _alarm)
-    signal.setitimer(signal.ITIMER_REAL, limit)
+    # CPU time of this process, so that a loaded machine does not look like a hang
+    old = signal.signal(signal.SIGPROF, _alarm)
+    signal.setitimer(signal.ITIMER_PROF, limit)
     try:
         if kind == "tree":
             return ["ok", [[list(s), n.key()] for (s, n) in ps.queryTreePath(text, query_all)]]
@@ -686,8 +702,8 @@ def impl_query1(ps, text, kind, query_all, limit):
     except Exception as e:  # noqa
         return ["internal", "%s: %s" % (type(e).__name__, e)]
     finally:
-        signal.setitimer(signal.ITIMER_REAL, 0)
-        signal.signal(signal.SIGALRM, old)
+        signal.setitimer(signal.ITIMER_PROF, 0)
+        signal.signal(signal.SIGPROF, old)
 
 
 class Impl:
@@ -793,7 +809,7 @@ def check_case(G, svals, sem, impl, q, extra_mode, want_all, full=True):
         rec["modes"][mode] = got
         want_err = sem.expected_error(steps, sets, mode)
         if got[0] == "hang":
-            bad("query %r did not terminate within 20 s on a graph of %d packages" % (q["text"], G["n"]), "query-hang")
+            bad("query %r did not terminate within 90 s of CPU time on a graph of %d packages" % (q["text"], G["n"]), "query-hang")
         elif got[0] == "internal":
             bad("internal exception from queryTreePath(%r): %s" % (q["text"], got[1]), "internal-exception")
         elif got[0] == "err":
@@ -954,9 +970,13 @@ def oracle(ctx):
     done = 0
     _RUN["graphs"] = []
     shrunk = set()
+    persig = {}
     hang = False
-    while done < n_graphs and ctx.time_left() > reserve and not hang:
-        batch = [("%s-%d-g%d" % (ctx.prop, ctx.seed, done + i), nq, nmal, ctx.tmp, 0.5) for i in range(min(32, n_graphs - done))]
+    last = 0.0
+    import time
+    while done < n_graphs and ctx.time_left() - reserve > 1.3 * last and not hang:
+        t0 = time.time()
+        batch = [("%s-%d-g%d" % (ctx.prop, ctx.seed, done + i), nq, nmal, ctx.tmp, 0.5) for i in range(min(16, n_graphs - done))]
         done += len(batch)
         for g in ctx.parallel(run_graph, batch):
             _RUN["graphs"].append(g)
@@ -979,6 +999,11 @@ def oracle(ctx):
                 ctx.case((g["key"], text, "malformed"))
                 ctx.count("malformed_outcome", k)
             for v in g["viol"]:
+                # the core keeps 50 violations: a frequent (known) signature must not crowd out a rare one
+                persig[v["signature"]] = persig.get(v["signature"], 0) + 1
+                ctx.count("oracle_failures", v["signature"])
+                if persig[v["signature"]] > 3:
+                    continue
                 case = _case(g, v)
                 if v["signature"] not in shrunk and len(shrunk) < 6:
                     shrunk.add(v["signature"])
@@ -987,6 +1012,7 @@ def oracle(ctx):
                     except Exception:  # noqa
                         pass
                 ctx.violation(v["what"], case, v["signature"])
+        last = time.time() - t0
     if done < n_graphs:
         ctx.notes["graphs_cut_by_time"] = "%d of %d" % (done, n_graphs)
 
